@@ -252,10 +252,12 @@ fn c12_batch(seed: u64, index: u64, per_batch: u64) -> HistoryReport {
     HistoryReport { index, out, steps, ok_steps: steps, cfg: format!("C12 batch {} of {} generated inputs", index, per_batch), log, op_kinds: Default::default() }
 }
 
+const INSITU_BASE: u64 = 500_000_000;
+
 fn run_c12(tier: &str, seed: u64, threads: usize, histories: Option<u64>, replay: Option<&str>) -> i32 {
     let t0 = std::time::Instant::now();
     let per_batch = 2_000u64;
-    let n = histories.unwrap_or(if tier == "quick" { 100 } else { 2_500 });
+    let n = histories.unwrap_or(if tier == "quick" { 250 } else { 5_000 });
     let mut seed = seed;
     let sum = if let Some(path) = replay {
         let v: serde_json::Value = match std::fs::read_to_string(path).ok().and_then(|s| serde_json::from_str(&s).ok()) {
@@ -264,11 +266,26 @@ fn run_c12(tier: &str, seed: u64, threads: usize, histories: Option<u64>, replay
         };
         seed = v["seed"].as_u64().unwrap_or(seed);
         let idx = v["history_index"].as_u64().unwrap_or(0);
-        run_sharded(1, 1, |_| c12_batch(seed, idx, per_batch))
+        if idx >= INSITU_BASE {
+            let spec = crate::props::spec_c12_insitu();
+            run_sharded(1, 1, |_| crate::driver::run_full_history(&spec, seed, 12, idx, false))
+        } else {
+            run_sharded(1, 1, |_| c12_batch(seed, idx, per_batch))
+        }
     } else {
-        run_sharded(n, threads, |i| c12_batch(seed, i, per_batch))
+        let mut sum = run_sharded(n, threads, |i| c12_batch(seed, i, per_batch));
+        // in situ: the plans the hub and the registry compute inside real transactions of full-world histories
+        if sum.first_violation.is_none() {
+            let spec = crate::props::spec_c12_insitu();
+            let n2 = if tier == "quick" { 150 } else { 3000 };
+            let s2 = run_sharded(n2, threads, |i| crate::driver::run_full_history(&spec, seed, 12, INSITU_BASE + i, false));
+            sum.absorb(s2);
+        }
+        sum
     };
     let required: &[(&str, u64)] = &[
+        ("c12.insitu_delegation_plans", 1),
+        ("c12.insitu_undelegation_plans", 1),
         ("c12.delegation_plans_checked", 1),
         ("c12.delegation_plans_with_skipped_validators", 1),
         ("c12.delegation_empty_list_rejected", 1),
@@ -283,7 +300,7 @@ fn run_c12(tier: &str, seed: u64, threads: usize, histories: Option<u64>, replay
         seed,
         sum,
         required,
-        "direct calls of the two pub planning functions on generated validator lists (n = 0..64; zeros, ones, equal, one giant, geometric, tiny, ties, random up to 2^127/n; ascending / descending / shuffled) and amounts (0, 1, T, T+-1, n, whole headroom, log-uniform); distinct = (function, n, pattern, order class, magnitude class of amount, boundary flags)",
+        "direct calls of the two pub planning functions on generated validator lists (n = 0..64; zeros, ones, equal, one giant, geometric, tiny, ties, random up to 2^127/n; ascending / descending / shuffled) and amounts (0, 1, T, T+-1, n, whole headroom, log-uniform); distinct = (function, n, pattern, order class, magnitude class of amount, boundary flags); plus, in situ, every plan computed inside a real bond / unbond transaction of full-world histories re-checked from the emitted staking messages",
         t0,
         replay.is_some(),
         json!({"inputs_per_batch": per_batch}),
